@@ -70,6 +70,15 @@ func Load(dir string, extraEnv ...string) (*Prog, error) {
 	prog, _ := ssautil.AllPackages(pkgs, ssa.InstantiateGenerics)
 	prog.Build()
 	p := &Prog{RepoDir: dir, Pkgs: pkgs, SSA: prog, byName: map[string]*ssa.Package{}, pkgs: map[string]*packages.Package{}}
+	{
+		var tps []*types.Package
+		for _, pk := range pkgs {
+			if pk.Types != nil && strings.HasPrefix(pk.Types.Path(), modulePath) {
+				tps = append(tps, pk.Types)
+			}
+		}
+		computeEmbeddedOwners(tps)
+	}
 	for _, pk := range pkgs {
 		p.Fset = pk.Fset
 		sp := prog.Package(pk.Types)
@@ -281,6 +290,11 @@ func (p *Prog) CallSites(fn *ssa.Function) []ssa.CallInstruction {
 	var out []ssa.CallInstruction
 	for _, e := range n.In {
 		if e.Site != nil && p.InModule(e.Caller.Func) {
+			// the wrapper the compiler makes for a method promoted through an embedded struct is a caller only if
+			// something calls the wrapper
+			if strings.HasPrefix(e.Caller.Func.Synthetic, "wrapper for") && len(e.Caller.In) == 0 {
+				continue
+			}
 			out = append(out, e.Site)
 		}
 	}
@@ -683,6 +697,42 @@ func (p *Prog) KeywordTable() map[string]string {
 }
 
 var usedAsValueCache = map[*ssa.Function]bool{}
+// OnlyCalled: every use of fn in the module is a call — direct, or through an interface method (the call sites are all
+// known: CallSites lists them); it is never stored, passed or bound as a value.
+func (p *Prog) OnlyCalled(fn *ssa.Function) bool {
+	if node := p.CG().Nodes[fn]; node != nil {
+		for _, e := range node.In {
+			if strings.HasPrefix(e.Caller.Func.Synthetic, "wrapper for") && len(e.Caller.In) == 0 {
+				continue
+			}
+			if e.Site == nil {
+				return false
+			}
+			c := e.Site.Common()
+			if !c.IsInvoke() && c.StaticCallee() != fn {
+				return false
+			}
+			if _, isCall := e.Site.(*ssa.Call); !isCall {
+				return false
+			}
+		}
+	}
+	only := true
+	for _, caller := range p.ModuleFuncs() {
+		instrsOf(caller, func(in ssa.Instruction) {
+			var ops []*ssa.Value
+			for _, op := range in.Operands(ops) {
+				if *op == ssa.Value(fn) {
+					if ci, isCall := in.(ssa.CallInstruction); !isCall || ci.Common().Value != ssa.Value(fn) {
+						only = false
+					}
+				}
+			}
+		})
+	}
+	return only
+}
+
 var usedAsValueDone = map[*ssa.Function]bool{}
 
 // UsedAsValue: is fn referenced anywhere in the module other than as the callee of a direct call (stored, passed,
